@@ -1,4 +1,5 @@
 import Proofs.EngineLogicTraversal
+import Proofs.EngineLogicFlags
 /-!
 # C17 — the decision logic of `tensor.py`, read from the source on this run, is the logic of the engine model
 
@@ -14,5 +15,21 @@ theorem src_explicit_stack_skeleton : type_of% @Proofs.EngineLogicTie.traversal_
 
 /-- one turn of the machine, with the source push condition -/
 theorem src_explicit_stack_step : type_of% @Proofs.EngineLogicTie.stackStep_uses_src := @Proofs.EngineLogicTie.stackStep_uses_src
+
+/-! The second half of the property (results computed while gradients are not tracked keep no history) rests on the creation rule and
+on the grad-mode contexts doing what the model says: a `no_grad` object re-records the mode in force when it is *entered* and restores
+exactly that on exit, however it was constructed and however often it is re-used. -/
+
+/-- what `Tensor.__init__` keeps of the operands, and the flag of the result, as read from the source -/
+theorem src_creation_rule_is_model : type_of% @Proofs.EngineLogicTie.mkTensor_uses_src := @Proofs.EngineLogicTie.mkTensor_uses_src
+
+/-- constructing a context object -/
+theorem src_ctx_new_is_model : type_of% @Proofs.EngineLogicTie.ctxNew_uses_src := @Proofs.EngineLogicTie.ctxNew_uses_src
+
+/-- entering it records the mode in force at entry -/
+theorem src_ctx_enter_is_model : type_of% @Proofs.EngineLogicTie.ctxEnter_uses_src := @Proofs.EngineLogicTie.ctxEnter_uses_src
+
+/-- leaving it (normally or by an exception) restores the recorded mode -/
+theorem src_ctx_exit_is_model : type_of% @Proofs.EngineLogicTie.ctxExit_uses_src := @Proofs.EngineLogicTie.ctxExit_uses_src
 
 end Props.C17
